@@ -623,19 +623,31 @@ func checkSession(c *core.Case) ([]core.Violation, bool) {
 		return nil, false
 	}
 	// find the first prefix at which something goes wrong, so that the report names the operation responsible
+	// (the search goes on after the first finding: a divergence between structure and file, C15, at one
+	//  operation may become a wrong file, C08, only some operations later; each signature is reported once)
+	var all []core.Violation
+	seen := map[string]bool{}
 	for i := 1; i <= n; i++ {
 		vs, bad := checkPrefix(&in, text, in.Ops[:i], exp.After[i-1])
 		if bad {
-			return nil, false
+			return all, false
 		}
-		if len(vs) > 0 {
-			for j := range vs {
-				vs[j].Case = c
+		for j := range vs {
+			p := vs[j].Sig[:strings.Index(vs[j].Sig, ":")+1]
+			if seen[p] {
+				continue // the first finding per property names the operation responsible
 			}
-			return vs, true
+			vs[j].Case = c
+			all = append(all, vs[j])
+		}
+		for j := range vs {
+			seen[vs[j].Sig[:strings.Index(vs[j].Sig, ":")+1]] = true
+		}
+		if seen["c08:"] && seen["c15:"] {
+			break
 		}
 	}
-	return nil, true
+	return all, true
 }
 
 // rationaleKind classifies a difference between retraction rationales.
